@@ -1,0 +1,38 @@
+//go:build verif
+
+// Contracts for package datasink (where results are written), checked by /verif/govc. Comment-only: no code.
+package datasink
+
+// A file sink (re)creates the configured file for writing: an existing file is truncated, never appended to.
+//@ func (s *fileSink) OpenSink
+//@ props C06
+//@ at call s.fs.OpenFile assert [the-configured-file-created-and-truncated] arg(name) == s.conf.Path && arg(flag) == 577 && arg(perm) == 420
+//@ ensures [open-outcome-is-returned] wc == box(result_of(s.fs.OpenFile, 0)) && err == result_of(s.fs.OpenFile, 1)
+
+//@ func NewFile
+//@ props C06
+//@ ensures [sink-of-the-configured-path] typeis(result, *fileSink) && result.(*fileSink).conf == conf && result.(*fileSink).fs.Fs == fs
+
+// stdout and stderr are handed out as they are and are never closed by an aggregator.
+//@ func (f hideCloseFileSink) OpenSink
+//@ props C06
+//@ modifies nothing
+//@ ensures [the-stream-itself] err == nil && wc == box(f)
+
+//@ func (f hideCloseFileSink) Close
+//@ props C06
+//@ modifies nothing
+//@ ensures [never-closes-the-process-stream] result == nil && calls(f.File.Close) == 0
+
+//@ func NewStdout
+//@ props C06
+//@ ensures typeis(result, hideCloseFileSink) && result.(hideCloseFileSink).File == box(os.Stdout)
+
+//@ func NewStderr
+//@ props C06
+//@ ensures typeis(result, hideCloseFileSink) && result.(hideCloseFileSink).File == box(os.Stderr)
+
+//@ struct FileConfig
+//@ props C06 C17
+//@ tag Path validate required
+//@ tag Path config path
